@@ -95,7 +95,7 @@ def replay_g_{tag}(e00, e01, e10, e11, r0, r1, q0, q1):
 def run(rep: C.Report) -> None:
     quick = C.tier() == "quick"
     rep.explanation = (
-        "The real analyze_templates runs on a real temporary SQLite store; CrossHair chooses the graph (case split) and the analysis then runs untraced (CrossHair would bypass get_page's lru_cache memo, which the analysis clears at specific points), under a 60 s alarm that turns non-termination into a failure. Symbolic: the inclusion matrix (per edge: absent / written as stored / "
+        "The real analyze_templates runs on a real temporary SQLite store; CrossHair chooses the graph (case split) and the analysis then runs untraced (CrossHair would bypass get_page's lru_cache memo, which the analysis clears at specific points), under a 15 s alarm that turns non-termination into a failure. Symbolic: the inclusion matrix (per edge: absent / written as stored / "
         "written in another spelling that resolves to the same page: lower-case initial, underscore for space, namespace prefix), whether a template includes the redirect page; enumerated per condition: classifier flag set, redirect target "
         "(none / each template / dangling) and the redirect's own flag. The marked set must equal an independent least-fixpoint closure plus the redirect rule. "
         "The solver only drives the case split here (finite space, exhaustive within the bound) - the weakest use of the technique in this framework, stated as such."
